@@ -29,8 +29,8 @@ MANIFEST = {
 
 PLAN = {
     # tier: (mc cfgs, (tlc scenarios, depth), seeded scenarios, shards)
-    "quick": (["MC_EvmWatcher_quick.cfg", "MC_EvmWatcher_reobs_quick.cfg", "MC_EvmWatcher_intake_quick.cfg"], (200, 36), 800, 4),
-    "thorough": (["MC_EvmWatcher_thorough.cfg", "MC_EvmWatcher_reobs_thorough.cfg", "MC_EvmWatcher_mixed_thorough.cfg", "MC_EvmWatcher_intake_thorough.cfg"], (2500, 44), 9500, 8),
+    "quick": (["MC_EvmWatcher_quick.cfg", "MC_EvmWatcher_reobs_quick.cfg", "MC_EvmWatcher_intake_quick.cfg", "MC_EvmWatcher_restart_quick.cfg"], (200, 36), 800, 4),
+    "thorough": (["MC_EvmWatcher_thorough.cfg", "MC_EvmWatcher_reobs_thorough.cfg", "MC_EvmWatcher_mixed_thorough.cfg", "MC_EvmWatcher_intake_thorough.cfg", "MC_EvmWatcher_restart_thorough.cfg"], (2500, 44), 9500, 8),
 }
 
 ASSUME = [
@@ -183,7 +183,11 @@ def run(prop, tier, replay=None):
         if ev in ("H_Head", "B_Poll", "PushLog"):
             st["inreobs"] = False
         if ev == "PushLog":
-            eff["push:" + ("delivered" if a["delivered"] else "filtered")] += 1
+            eff["push:" + ("delivered" if a["delivered"] else "filtered") + (":held" if a.get("hold") else "")] += 1
+        if ev == "RunRestart":
+            eff["restart:%s:pending%d" % (a.get("via"), min(len(ln["s"]["pending"]), 2))] += 1
+            classes.add(("RunRestart", st["fin"], a.get("via"), min(len(ln["s"]["pending"]), 3)))
+            st["pl"] = a["pl"]
         if ev in ("Reorg", "Remine", "DropReceipt", "FailTx", "Arm"):
             eff["env:" + ev + (":" + a["kind"] if ev == "Arm" else "")] += 1
     ok_traces = ran - len(timeouts)
